@@ -372,6 +372,15 @@ func (a Attr) Short() string {
 	return s + "}"
 }
 
+// OrderedList renders several projections in the given order (Loc-RIB order is preference order).
+func OrderedList(as []Attr) string {
+	var parts []string
+	for _, a := range as {
+		parts = append(parts, a.Short())
+	}
+	return "[" + strings.Join(parts, " ") + "]"
+}
+
 // ShortList renders several projections sorted by id.
 func ShortList(as []Attr) string {
 	c := append([]Attr{}, as...)
